@@ -298,7 +298,8 @@ PLANS["C19"] = dict(
 
 
 PLANS["C20"] = dict(
-    runs=lambda tier: [R("reject", "asan", 123 if tier == "quick" else 984)],
+    runs=lambda tier: [R("reject", "asan", 123 if tier == "quick" else 984),
+                       R("cinterface", "asan", 123 if tier == "quick" else 984, configs="c/static")],
     level="fault_enumeration",
     kinds={"reserved_key_not_rejected", "unsorted_bulk_load_not_rejected", "bad_base_not_rejected", "reserved_value_in_bulk_load_not_rejected",
            "reserved_value_insert_not_rejected", "rejected_insert_changed_container", "range_lo_gt_hi_not_rejected", "wide_coordinate_not_rejected",
@@ -317,6 +318,67 @@ PLANS["C20"] = dict(
                "observed exception category and the container state after the rejected call are the oracle.",
     assumptions=ASSUME_COMMON,
     technique="runtime monitoring: enumerated invalid inputs, exception-category oracle and state snapshot comparison, under AddressSanitizer",
+)
+
+
+PLANS["C18"] = dict(
+    runs=lambda tier: ([R("cinterface", "asan", 400), R("cinterface", "v3", 400)] if tier == "quick" else
+                       [R("cinterface", "asan", 4000), R("cinterface", "rel", 8000), R("cinterface", "v3", 8000)]),
+    kinds={"range_malformed", "range_too_wide", "pos_below_lo", "first_occurrence_outside", "lower_bound_mismatch",
+           "c_create_accepted_reserved_value", "c_create_returned_null", "c_dynamic_create_returned_null", "c_iteration_mismatch",
+           "c_iteration_does_not_terminate", "c_iteration_too_short", "c_iterator_next_after_end", "c_find_mismatch", "c_size_mismatch"},
+    rule="c-interface/cpgm.cpp compiled from the tree and called through cpgm.h only. static: int32/int64/uint32/uint64 x run-time "
+         "epsilon in {1,2,3,7,64,1000,4096} x one sorted array (families of C01) x the full query set of C02, oracle = C01 and C02 "
+         "clauses with width <= 2*epsilon+2; create on data with the reserved value must return NULL; non-trivial = more than "
+         "2*eps+2 distinct keys, eps != 1 and an absent query. dynamic: histories of create / create_empty / insert_or_assign / "
+         "erase / find / size / begin / lower_bound / iterator_next / iterator_destroy against std::map (find value, walks "
+         "enumerate the map tail exactly, then false and false again, size); non-trivial = more live keys than the default buffer "
+         "holds (>= 1 merge)",
+    assumptions=ASSUME_COMMON,
+)
+
+
+def tsan_post(task, prop, seed):
+    """Race reports printed by ThreadSanitizer that the in-process hook did not attribute to a case (belt and braces)."""
+    import re
+    text = getattr(task, "stderr_all", "")
+    out = []
+    blocks = re.findall(r"WARNING: ThreadSanitizer: [^\n]*\n(?:.*\n){0,40}?SUMMARY: ThreadSanitizer: [^\n]*", text)
+    seen = set()
+    attributed = any(r.get("kind") == "tsan_report" for r in task.records if r.get("t") == "violation")
+    for b in blocks:
+        key = re.sub(r"0x[0-9a-f]+|\d+", "", b.split("\n")[-1])
+        if key in seen:
+            continue
+        seen.add(key)
+        task.tsan_blocks = getattr(task, "tsan_blocks", []) + [b[:3000]]
+        if not attributed:
+            out.append(dict(t="violation", prop=prop, config="(unattributed)", case=-1, seed=seed, kind="tsan_report", region="",
+                            detail=dict(summary=b.split("\n")[-1]), stderr=b[:3000]))
+    return out
+
+
+def conc_evidence(tasks, summaries):
+    blocks = []
+    for t in tasks:
+        blocks += getattr(t, "tsan_blocks", [])
+    return dict(tsan_report_blocks=len(blocks), tsan_first_reports=blocks[:3])
+
+
+PLANS["C16"] = dict(
+    runs=lambda tier: [R("concurrent", "tsan", 12 if tier == "quick" else 120, post=tsan_post, shards=16)],
+    kinds={"tsan_report", "concurrent_result_differs"},
+    rule="case = one shared object (16 instantiations: PGMIndex x4 incl. binary-search routing and floating keys, Compressed x2, "
+         "Bucketing x2, Elias-Fano x2, Mapped x2 (created / reopened), Multidimensional x2, Dynamic x3 with arithmetic / string / "
+         "pointer values, updated between rounds with the readers joined) queried by 2/4/8/16 std::threads released together, "
+         "2000 (quick) / 20000 (thorough) mixed operations per thread with random yields between library calls, alternately on "
+         "all cores and pinned to 2 cores; built with -fsanitize=thread, hooks off, no OpenMP; oracle: zero ThreadSanitizer "
+         "reports (in-process __tsan_on_report counter + the log), and each thread's digest of (query,result) equals the digest "
+         "of the same sequence run alone before and after; non-trivial = >= 2 readers were inside the library simultaneously",
+    assumptions=ASSUME_COMMON + ["ThreadSanitizer's happens-before analysis flags a race on any schedule where the two accesses are unordered; schedules are sampled, not enumerated",
+                                 "construction is sequential (the chunked OpenMP build is not part of this property)"],
+    technique="runtime monitoring: ThreadSanitizer (happens-before race detector) + per-thread result digests vs sequential execution",
+    timeout=dict(quick=1800, thorough=7200),
 )
 
 # properties not claimed (filled while the framework is being built; empty once every engine exists)
